@@ -84,7 +84,7 @@ impl<'a> PrettyPrinter<'a> {
         // Sort import items if the configuration allows it.
         // The sorting is only applied if all nodes are not comments and if there are no duplicate names.
         if self.config.reorder_import_items
-            && import_items_nodes.iter().all(|node| !is_comment_node(node))
+            && import_items_nodes.iter().all(|node| !contains_comment(node))
             && check_import_name_duplication(&import_items_nodes)
         {
             // Sort import items by their text representation.
@@ -143,6 +143,11 @@ impl<'a> PrettyPrinter<'a> {
             }
         })
     }
+}
+
+/// Whether the node is a comment or has a comment at any depth (e.g. inside an import item).
+fn contains_comment(node: &SyntaxNode) -> bool {
+    is_comment_node(node) || node.children().any(contains_comment)
 }
 
 /// Check for duplicate import names in the given import items nodes.
